@@ -4,12 +4,12 @@ CONSTANTS
   StreamSet = {"sa"}
   MaxParts = 1
   Brokers = {"r1", "r2"}
-  ConsumerSet = {"c1", "c2"}
-  Coords = {"A", "X"}
-  OpKinds = {"CreateStream", "ChangeLeader", "ShrinkISR", "ExpandISR"}
+  ConsumerSet = {"c1"}
+  Coords = {"A"}
+  OpKinds = {"CreateStream", "Pause", "Resume", "SetReadonly"}
   Variants = {"plain"}
   Extras = {"PersistWith"}
-  MaxOps = 3
+  MaxOps = 4
   MaxSnaps = 1
   MaxRestarts = 1
 CHECK_DEADLOCK FALSE
